@@ -198,6 +198,24 @@ func c03Check(n int, movesHistory string) {
 		d.Input.Add(d.Input, p.Amount)
 		verifAssert("C03:move-dest-pcv", dm.PostCommitVolumes.Input.Cmp(d.Input) == 0 && dm.PostCommitVolumes.Output.Cmp(d.Output) == 0)
 	}
+	// C01 / C05 (Go glue): a read at an insertion-date point in time takes, per (account, asset), the volumes recorded by the
+	// move with the greatest seq, and seq follows the order of the rows handed to the INSERT: the LAST move of each pair must
+	// carry the volumes the transaction leaves behind (which are balanced whenever the pre-state is: C01's other halves)
+	for acc, byAsset := range tx.PostCommitVolumes {
+		for asset, v := range byAsset {
+			var last *ledger.Move
+			for _, m := range verifMoves {
+				if m.Account == acc && m.Asset == asset {
+					last = m
+				}
+			}
+			if last != nil {
+				ok := last.PostCommitVolumes.Input.Cmp(v.Input) == 0 && last.PostCommitVolumes.Output.Cmp(v.Output) == 0
+				verifAssert("C01:the-last-inserted-move-of-a-pair-carries-the-volumes-the-transaction-leaves", ok)
+				verifAssert("C05:the-last-inserted-move-of-a-pair-carries-the-volumes-the-transaction-leaves", ok)
+			}
+		}
+	}
 	// C04 (Go glue): the transaction's effective volumes are those of the LAST move of each (account, asset)
 	for acc, byAsset := range tx.PostCommitEffectiveVolumes {
 		for asset, v := range byAsset {
